@@ -1189,6 +1189,15 @@ func (c *SpecCtx) evalCall(x SCall) Val {
 	}
 	if x.Fn == "defined" { // defined(name): the local name is in scope at the evaluation point
 		if id, ok := x.Args[0].(SIdent); ok && c.f != nil {
+			if _, bound := c.binds[id.Name]; bound {
+				// a let, or a loop ghost variable: the latter is in scope where its loop has been entered
+				if hb, isGhost := c.f.ghostHdr[id.Name]; isGhost {
+					if cur := c.evalBlock(); cur != nil && cur != hb && !hb.Dominates(cur) {
+						return boolV("false")
+					}
+				}
+				return boolV("true")
+			}
 			if c.dbgDominating(id.Name) != nil {
 				return boolV("true")
 			}
